@@ -213,8 +213,11 @@ func (i *interpreter) concretize(t *Term, what string) uint64 {
 		panic(engineError{fmt.Sprintf("concretisation cap (%d) exceeded for %s", ex.concCap, what)})
 	}
 	nexcl := append(append([]uint64{}, excl...), v)
-	alt := append(append([]decision{}, ps.taken...), decision{Kind: "val", Pending: true, Excl: nexcl, What: what})
-	ex.work = append(ex.work, alt)
+	// only schedule the alternative if another value is feasible at all
+	if ex.solver.check(append(lits, mkNot(mkCmp("=", t, mkConst(t.w, v))))) != resUnsat {
+		alt := append(append([]decision{}, ps.taken...), decision{Kind: "val", Pending: true, Excl: nexcl, What: what})
+		ex.work = append(ex.work, alt)
+	}
 	ps.taken = append(ps.taken, decision{Kind: "val", Val: v, What: what})
 	i.addPC(mkCmp("=", t, mkConst(t.w, v)))
 	return v
